@@ -1,5 +1,5 @@
 #!/bin/sh
-# try_mutant_sandbox.sh <patch.diff> <prop> <tier> [more "prop tier" pairs...]
+# try_mutant_sandbox.sh <patch.diff> <prop> <tier> [more "prop tier" pairs...]   (a pair "replay <file.json>" replays a file instead)
 # Like try_mutant.sh but never touches /repo's working tree: the patch is applied to a scratch git
 # worktree of /repo, and a scratch copy of the simulator crate is built against that worktree.
 # (Development aid only - the registered checks always build against /repo itself.)
@@ -18,7 +18,11 @@ ln -s /verif/corpus "$V/corpus"; cp /verif/KNOWN_FINDINGS.txt "$V/"
 while [ $# -ge 2 ]; do
   echo "=== $patch (sandbox): check $1 $2"
   start=$(date +%s)
-  VERIF_ROOT="$V" VERIF_REPO="$R" "$S/target/release/simc" check "$1" "$2" 2>&1 | grep -v "^KNOWN-FINDING" | cut -c1-400 | tail -12
+  if [ "$1" = replay ]; then
+    VERIF_ROOT="$V" VERIF_REPO="$R" "$S/target/release/simc" replay "$2" 2>&1 | cut -c1-400 | tail -4
+  else
+    VERIF_ROOT="$V" VERIF_REPO="$R" "$S/target/release/simc" check "$1" "$2" 2>&1 | grep -v "^KNOWN-FINDING" | cut -c1-400 | tail -12
+  fi
   echo "=== after $(( $(date +%s) - start )) s"
   shift 2
 done
